@@ -288,6 +288,13 @@ class Verifier:
             except Unsupported as e:
                 return dict(kind="unsupported", goal=None, detail=str(e), inlined=None)
         try:
+            self.prog.func(C.fn)
+        except KeyError:
+            # the function this contract is attached to no longer exists under that name (renamed / removed / inlined):
+            # nothing can be said deductively - never a verdict; the property's bounded stand-in still runs
+            return [dict(name=C.name + "#attach", contract=C.name, fn=C.fn, props=list(C.props), status="out-of-reach",
+                         detail="function %s not found in the current source: the contract is not attached to anything" % C.fn, seconds=0.0)]
+        try:
             paths = smt.explore(run, (), max_paths=max_paths)
         except RuntimeError as e:
             # path explosion / exploration budget: the function is out of the verifier's reach in this run (never a verdict)
